@@ -74,7 +74,6 @@ LEVEL_NOTE = ('Trusted: Lean kernel + 3 standard axioms; the hand-written model 
 TECHNIQUE = 'Lean 4 proof (invariants over the tick loop, refinement of the stored-results layer) + regenerated constants + differential correspondence L1/L2'
 
 T = ('em', 'therm', 'kin', 'expl')
-K2 = 'K2'
 
 
 # ---------------------------------------------------------------- universe
@@ -371,7 +370,6 @@ class Run:
         self.lines = ['reset', 'maxt %d' % hist.get('maxt', 500)]
         self.expect = []          # (line index, kind, impl data, step)
         self.findings = []        # (what, cls, step, kind)
-        self.ghost = False
         self.laws = check_laws
         self.fresh = check_fresh
         self.sig = []
@@ -434,21 +432,6 @@ class Run:
         k = op['op']
         if k == 'obs':
             return self.observe(n, op)
-        # class predicate of K2, evaluated on impl's own state before the change
-        if im.res_present():
-            run_idx = im.order()
-            if k == 'ship':
-                self.ghost = True
-            elif k == 'imp' and op['k'].startswith('ship:') and ship_inputs(cfg) is not None:
-                ts = T if op['k'] == 'ship:all' else (op['k'][5:],)
-                if not set(ts) & set(im.ship_cached()):
-                    self.ghost = True
-            elif k == 'imp' and op['k'] == 'shift' and not all(im.rah_cached(i)[0] for i in run_idx):
-                self.ghost = True
-            elif len(run_idx) > 1 and (
-                    (k == 'imp' and op['k'] == 'cyc' and not all(im.rah_cached(i)[1] for i in run_idx)) or
-                    (k == 'state' and op['i'] in run_idx and op['state'] >= 3 and not im.rah_cached(op['i'])[1])):
-                self.ghost = True
         order_before = im.order()
         before = rah_inputs(cfg, cfg['rahs'][op['i']])[2] if k == 'state' else None
         try:
@@ -458,15 +441,13 @@ class Run:
             return False
         apply_cfg(cfg, op)
         self.model_lines(op, before, order_before)
-        if not im.res_present():
-            self.ghost = False
         self.l2(n)
         return True
 
     def l2(self, n):
         im = self.im
         self.emit('dump', 'dump', {'res': int(im.res_present()), 'n': len(im.sim_data()),
-                                   'shipC': [t for t in T if t in im.ship_cached()], 'stale': int(self.ghost)}, n)
+                                   'shipC': [t for t in T if t in im.ship_cached()]}, n)
 
     def observe(self, n, op):
         im, cfg = self.im, self.cfg
@@ -504,7 +485,7 @@ class Run:
 
     # ---- impl-level oracle
     def violate(self, n, what, kind='law'):
-        self.findings.append(('step %d: %s' % (n, what), K2 if self.ghost else None, n, kind))
+        self.findings.append(('step %d: %s' % (n, what), None, n, kind))
 
     def in_quantifier(self, r):
         base, shift, dur = rah_inputs(self.cfg, r)
@@ -532,7 +513,7 @@ class Run:
                 if g != un:
                     self.violate(n, 'hardener %d is not running but exposes %r, unsimulated %r' % (i, g, un))
                 continue
-            if ship is None and not self.ghost and g != un:
+            if ship is None and g != un:
                 self.violate(n, 'no loaded ship but hardener %d exposes %r, unsimulated %r' % (i, g, un))
             if recs and not had and g != un:
                 self.violate(n, 'the simulation failed (%s) but hardener %d exposes %r, unsimulated %r' % (recs[0], i, g, un))
@@ -545,7 +526,7 @@ class Run:
             if min(g) <= 0:
                 self.violate(n, 'hardener %d: non-positive resonance: %r' % (i, g))
             nz = [j for j, p in enumerate(prof) if p > 0]
-            if ship is not None and len(nz) == 1 and not self.ghost and self.converges(run_rahs):
+            if ship is not None and len(nz) == 1 and self.converges(run_rahs):
                 want = [1.0] * 4
                 want[nz[0]] = sum(un) - 3
                 if not all(C.close(a, b) for a, b in zip(g, want)):
@@ -770,11 +751,12 @@ def malformed_histories():
     return out
 
 
-WITNESS_K2 = [
-    {'pen': False, 'dyadic': False, 'witness': 'K2 ship replaced', 'ops': [
+# the two shapes of the former finding K2 (fixed in /repo 6652e34): they must hold now
+CORPUS = [
+    {'pen': False, 'dyadic': False, 'corpus': 'ship replaced after a read', 'ops': [
         {'op': 'ship', 'v': [0.5, 0.65, 0.75, 0.9]}, {'op': 'add', 'v': [0.85] * 4, 'shift': 6, 'cyc': 10000, 'state': 3},
         {'op': 'obs', 'what': 'all'}, {'op': 'ship', 'v': [0.9, 0.75, 0.65, 0.5]}, {'op': 'obs', 'what': 'all'}]},
-    {'pen': False, 'dyadic': False, 'witness': 'K2 ship resonance modified while not cached', 'ops': [
+    {'pen': False, 'dyadic': False, 'corpus': 'ship resonance modified while not cached', 'ops': [
         {'op': 'ship', 'v': [0.4, 0.65, 0.75, 0.9]}, {'op': 'add', 'v': [0.85] * 4, 'shift': 6, 'cyc': 10000, 'state': 3},
         {'op': 'obs', 'what': 'rah'}, {'op': 'imp', 'k': 'ship:em', 'v': 2.0}, {'op': 'obs', 'what': 'all'}]},
 ]
@@ -812,10 +794,9 @@ def compare(rep, run, outs):
         if kind == 'dump':
             run.frag_at[step] = frag
             m = dict(kv.split('=') for kv in line.split()[1:])
-            got = {'res': int(m['res']), 'n': int(m['n']), 'shipC': [t for t in m['shipC'].split(',') if t],
-                   'stale': int(m['stale'])}
+            got = {'res': int(m['res']), 'n': int(m['n']), 'shipC': [t for t in m['shipC'].split(',') if t]}
             if got != data:
-                rep.disagree('rah.L2 (stored results / cached ship resonances / K2 ghost)', got, data, case)
+                rep.disagree('rah.L2 (stored results / cached ship resonances)', got, data, case)
                 return
         elif kind == 'ship':
             _, outcome, looped, ticks, fr, val = line.split()
@@ -825,7 +806,7 @@ def compare(rep, run, outs):
                 return
         else:
             head, *vecs = line.split(';')
-            _, outcome, looped, ticks, fr, stale = head.split()
+            _, outcome, looped, ticks, fr = head.split()
             ran(outcome, looped, ticks, fr, len(vecs))
             mvals = [[float(C.unq(x)) for x in v.split()] for v in vecs]
             if len(mvals) != len(data['order']):
@@ -867,7 +848,7 @@ def account(rep, run):
 def correspondence(ctx):
     rep = ctx.report
     rep.rules.append(RULE)
-    hists = list(WITNESS_K2) + malformed_histories()
+    hists = list(CORPUS) + malformed_histories()
     rnd = ctx.sub_rnd('corr')
     hists += [gen_history(rnd) for _ in range(ctx.n(130, 1500))]
     for r in run_batch(rep, hists, laws=False, fresh=False):
@@ -877,9 +858,9 @@ def correspondence(ctx):
 
 
 def report_findings(rep, run):
-    """Findings of one executed history -> violations. A difference from the fresh build that is neither in the K2
-    class nor explained by a decision the model flags as float-fragile (exact damage ties broken by 1-ulp noise
-    of the modifier multiplication order) is a violation."""
+    """Findings of one executed history -> violations. A difference from the fresh build is a violation unless it
+    is explained by a decision the model flags as float-fragile (exact damage ties broken by 1-ulp noise of the
+    modifier multiplication order)."""
     fresh = [f for f in run.findings if f[3] == 'fresh' and f[1] is None]
     if fresh:
         try:
@@ -899,7 +880,7 @@ def oracle(ctx, count=None, key='oracle'):
     """The property itself on the real code: laws at every read, and equality with a fresh build."""
     rep = ctx.report
     rnd = ctx.sub_rnd(key)
-    hists = list(WITNESS_K2) + [gen_history(rnd) for _ in range(count or ctx.n(90, 1200))]
+    hists = list(CORPUS) + [gen_history(rnd) for _ in range(count or ctx.n(90, 1200))]
     for h, step in getattr(ctx, 'suspects', []):
         # cut right after the disagreeing step and read everything
         hists.insert(0, dict(h, ops=h['ops'][:step + 1] + [{'op': 'obs', 'what': 'all'}]))
@@ -965,7 +946,7 @@ def replay(path):
     for n, op in enumerate(hist['ops']):
         print(n, op)
     for what, cls, _, _ in run.findings:
-        print('REPRODUCED%s: %s' % (' (known %s)' % cls if cls else '', what))
+        print('REPRODUCED:', what)
     rep = C.Report()
     try:
         run_batch(rep, [hist], laws=False, fresh=False)
